@@ -69,6 +69,9 @@ def enumerate_cases(tier):
     for opt in sorted(c20.PAIR_OPTIONS):
         fam, vals = c20.PAIR_OPTIONS[opt]
         yield {"kind": "cfgorder", "fmt": c20.FAMILY_OF[fam], "option": opt, "family": fam, "values": vals, "sources": [], "var": {}}
+    # two configurations whose sources live in different directories, with some file names in common (different artwork)
+    for fam, fmt in (("vector", "glyf_colr_1"), ("otsvg", "picosvg"), ("bitmap", "cbdt")):
+        yield {"kind": "cfgorder", "fmt": fmt, "option": "color_format", "family": fam, "values": [fmt, fmt], "dirs": True, "sources": [], "var": {}}
 
 
 def cases(tier):
@@ -239,6 +242,8 @@ def judge_cfgorder(case, v):
     base = {"color_format": c20.FAMILY_OF[fam]}
     if fam == "bitmap":
         base["bitmap_resolution"] = 40
+    if opt == "glyphmap_generator":
+        base["keep_glyph_names"] = True
     cfgs = []
     for i, val in enumerate(case["values"]):
         c = dict(base)
@@ -247,6 +252,12 @@ def judge_cfgorder(case, v):
         c["family"] = "Pair %s" % "AB"[i]
         cfgs.append(c)
     files = {"src/" + k: x for k, x in c20.FILES.items()}
+    srcs = ['["src/*.svg"]', '["src/*.svg"]']
+    if case.get("dirs"):
+        v.cls("cfgorder:dirs")
+        files.update({"src2/emoji_u1f600.svg": c20.SRC_WIDE.replace("#806040", "#204080"), "src2/emoji_u1f603.svg": c20.SRC_WIDE.replace("#806040", "#405060"),
+                      "src2/emoji_u1f468_200d_1f469.svg": c20.FILES["emoji_u1f600.svg"], "src2/emoji_u0023.svg": c20.SRC_WIDE.replace("#806040", "#a03060")})
+        srcs = ['["src/*.svg"]', '["src2/*.svg"]']
     hashes = []
     for order in (["c0.toml", "c1.toml"], ["c1.toml", "c0.toml"]):
         with Workspace("c08cfg") as ws:
@@ -254,8 +265,9 @@ def judge_cfgorder(case, v):
             for name, text in files.items():
                 ws.write(name, text)
             for i, c in enumerate(cfgs):
-                c20.write_toml(ws, "c%d.toml" % i, c)
-            rc, out = ws.run(["nanoemoji", "--build_dir", "build"] + order, ninja_j=4, hashseed="0")
+                c20.write_toml(ws, "c%d.toml" % i, c, srcs[i])
+            ws.write("my_glyphmap.py", c20.MY_GLYPHMAP)
+            rc, out = ws.run(["nanoemoji", "--build_dir", "build"] + order, ninja_j=4, hashseed="0", env={"PYTHONPATH": os.environ.get("VERIF_REPO", "/repo") + "/src:" + ws.root})
             hashes.append([("FAILED:" + tail(out, 2)) if rc != 0 else sha(ws.path("build", c["output_file"])) for c in cfgs])
     if all(str(h).startswith("FAILED") for hs in hashes for h in hs):
         v.rejected = "build fails: " + str(hashes[0][0])[:60]
